@@ -84,3 +84,87 @@ Theorem C07_finished_is_final :
     entered (step_st c s e) i = entered s i /\ cs (step_st c s e) i = cs s i.
 Proof. exact entered_stable. Qed.
 Print Assumptions C07_finished_is_final.
+
+(* ---- added after the review ---- *)
+
+(* clause 1 as the property words it: after ANY history, once nothing waits or runs, cap fresh
+   callers polled back to back (in any order) are all admitted ... *)
+Theorem C07_full_capacity_again :
+  forall (c : cfg) (evs : list ev) (l : list nat),
+    let s := fold_left (step_st c) evs (init c) in
+    idle s -> NoDup l -> length l = cap c -> (forall i, In i l -> cs s i = Created) ->
+    Forall (fun o => started o = true) (run_obs c s (map Poll l)).
+Proof. exact full_capacity_again. Qed.
+Print Assumptions C07_full_capacity_again.
+
+(* ... and mid-history: while k callers legitimately run and nobody waits, cap - k fresh callers
+   are admitted *)
+Theorem C07_spare_capacity_admits :
+  forall (c : cfg) (evs : list ev) (l : list nat),
+    let s := fold_left (step_st c) evs (init c) in
+    queue s = [] -> granted s = [] -> NoDup l -> (forall i, In i l -> cs s i = Created) ->
+    (length l + inflight s <= cap c)%nat ->
+    Forall (fun o => started o = true) (run_obs c s (map Poll l)).
+Proof. exact spare_capacity_admits. Qed.
+Print Assumptions C07_spare_capacity_admits.
+
+(* clause 1 on the trace bin/check compares: for EVERY script the rows of the first cap probe
+   callers that run_script appends (after the scripted history and the drop of every scripted
+   caller) report a started inner call.  [run_obs] above and the trace are the same run:
+   column 1 of run_evs is the started flag of run_obs *)
+Theorem C07_probe_admits_cap :
+  forall (sc : list Z),
+    let c := cfg_of sc in
+    let k := (length (script_evs sc) + callers_of sc)%nat in
+    firstn (cap c) (col6 1 (skipn (6 * k) (run_script sc))) = repeat 1 (cap c).
+Proof. exact probe_admits_cap. Qed.
+Print Assumptions C07_probe_admits_cap.
+
+Theorem C07_trace_started_is_run_obs :
+  forall (c : cfg) (total : nat) (evs : list ev) (s : st),
+    col6 1 (run_evs c total s evs) = map (fun o => b2z (started o)) (run_obs c s evs).
+Proof. exact col6_started. Qed.
+Print Assumptions C07_trace_started_is_run_obs.
+
+(* a permit handed to a waiter is usable: the waiter's wake flag is set for as long as it holds
+   the undelivered grant (no capacity parked on a sleeping caller), and its next poll -- at
+   any time, even after its deadline -- starts the inner call *)
+Theorem C07_granted_is_woken :
+  forall (c : cfg) (evs : list ev),
+    Forall (fun s => forall i, In i (granted s) -> woken s i = true /\ is_waiting (cs s i))
+           (states (step_st c) (init c) evs).
+Proof. exact granted_is_woken. Qed.
+Print Assumptions C07_granted_is_woken.
+
+Theorem C07_granted_starts :
+  forall (c : cfg) (s : st) (i : nat) (dl : option Z),
+    cs s i = Waiting dl -> In i (granted s) -> started (snd (poll c s i)) = true.
+Proof. exact granted_starts. Qed.
+Print Assumptions C07_granted_starts.
+
+(* clause 3, composed: a waiter that holds no permit is still pending at every poll before its
+   deadline; advancing the clock exactly to the deadline sets its wake flag and the poll then
+   returns Timeout, at now = deadline = arrival + max_wait *)
+Theorem C07_waits_until_deadline :
+  forall (c : cfg) (s : st) (i : nat) (d : Z),
+    cs s i = Waiting (Some d) -> ~ In i (granted s) -> now s < d ->
+    r (snd (poll c s i)) = 0 /\ started (snd (poll c s i)) = false.
+Proof. exact waits_until_deadline. Qed.
+Print Assumptions C07_waits_until_deadline.
+
+Theorem C07_rejected_at_deadline :
+  forall (c : cfg) (s : st) (i : nat) (d dd : Z),
+    cs s i = Waiting (Some d) -> ~ In i (granted s) -> now s < d -> now s + dd = d ->
+    let s1 := advance s dd in now s1 = d /\ woken s1 i = true /\ r (snd (poll c s1 i)) = 3.
+Proof. exact rejected_at_deadline. Qed.
+Print Assumptions C07_rejected_at_deadline.
+
+(* zero wait (reject_when_full, the presets): a fresh caller that finds no free permit is
+   rejected in that very poll, without reaching the inner service *)
+Theorem C07_zero_wait_rejects :
+  forall (c : cfg) (s : st) (i : nat) (w : Z),
+    cs s i = Created -> free s = 0%nat -> max_wait c = Some w -> w <= 0 ->
+    r (snd (poll c s i)) = 3 /\ started (snd (poll c s i)) = false /\
+    now (fst (poll c s i)) = now s.
+Proof. exact zero_wait_rejects. Qed.
+Print Assumptions C07_zero_wait_rejects.
